@@ -79,15 +79,15 @@ def curve_rotdpp(ns, ew, vt, dt, n, azimuths, p, width, operator, b, fcs):
 
 
 def psd_single(xs, dt, n, width):
-    """Welch (1967) one-sided PSD, average over windows of 2 |X_w|^2 / (mean(taper^2) N fs)."""
+    """Welch (1967) one-sided PSD: average over the windows of the single-window densities 2 |X_w|^2 / (mean(taper_w^2) N_w fs),
+    each window with the taper and the sample count of its own length."""
     xs = [np.asarray(x, dtype=float) for x in xs]
-    N = len(xs[0])
-    w = tukey(N, alpha=width)
     acc = np.zeros(n // 2 + 1)
     for x in xs:
+        w = tukey(len(x), alpha=width)
         X = np.fft.rfft(x * w, n)
-        acc += (X.real ** 2 + X.imag ** 2)
-    return 2 * acc / (np.mean(w ** 2) * N * (1 / dt) * len(xs))
+        acc += (X.real ** 2 + X.imag ** 2) / (np.mean(w ** 2) * len(x))
+    return 2 * acc / ((1 / dt) * len(xs))
 
 
 def curve_diffuse(records, n, width, operator, b, fcs):
